@@ -1,11 +1,11 @@
-\* quick: every body of <= 3 statements over 10 evidence symbols (1111 bodies) x 3 helper shapes,
+\* quick: every body of <= 3 statements over 10 evidence symbols (1111 bodies) x 2 helper shapes,
 \* @Test, flat *Test.java layout
 SPECIFICATION Spec
 CONSTANTS
   MaxBody = 3
   Alphabet = {"print", "sleep", "assertEq", "assertTrue", "eqAssert", "eqPlain", "helper", "thisHelper", "plain", "new"}
   AnnoKinds = {"T"}
-  HelperKinds = {"none", "assert", "print"}
+  HelperKinds = {"none", "assert"}
   PathKinds = {"flatTest"}
   Repaired = TRUE
 INVARIANTS C11_FindingsExact C11_OnlyTestFiles C11_FileAttribution C11_LoopBounds Emit
